@@ -148,7 +148,10 @@ fn classify_kind(plan: &Plan, v: &Violation) -> String {
         } => *via_hashmap || *via_insert || !dups.is_empty() || order.iter().enumerate().any(|(i, o)| i != *o),
         _ => false,
     });
-    if plan.shuttle {
+    if plan.fresh_exec {
+        // the fresh address space survived minimisation: the output depends on it
+        "address_space_divergence".into()
+    } else if plan.shuttle {
         "schedule_divergence".into()
     } else if plan.clock_step_ns > 0 {
         "clock_divergence".into()
@@ -184,7 +187,7 @@ fn cmd_replay(path: &str) -> i32 {
     let mut refs = RefTable::default();
     let mut plan = rf.plan.clone();
     plan.keep_log = true;
-    let tries = if rf.kind == "unseamed_nondeterminism" || rf.kind == "uncontrolled_concurrency" || rf.plan.engine == "free" {
+    let tries = if rf.kind == "address_space_divergence" || rf.plan.fresh_exec || rf.kind == "unseamed_nondeterminism" || rf.kind == "uncontrolled_concurrency" || rf.plan.engine == "free" {
         50
     } else {
         1
@@ -381,6 +384,7 @@ impl Agg {
             ("heap_layout", f.heap_layout),
             ("clock", f.clock),
             ("log_level", f.log_level),
+            ("address_space", f.address_space),
         ] {
             if v > 0 {
                 Self::bump(&mut self.fault_execs, k, 1);
@@ -811,7 +815,7 @@ fn cmd_run(args: &[String]) -> i32 {
         "coverage": {
             "evaluations": agg.evaluations,
             "distinct_nontrivial": distinct,
-            "rule": "one evaluation = one simulated execution (a Plan run in a pristine forked process). Plans are a pure function of (VERIF_SEED, stratum, index): stratum A = one operation under 1+K hash bases / file enumeration orders; B = sequential call histories over 1-3 caller threads with faults and a sentinel phase; C = 2-4 concurrent callers (real OS threads under the simulator's baton scheduler; a quarter of them twins compiling the same program) with faults and a sentinel phase; one B execution in forty is a long history (the judged calls, 120-520 unjudged filler calls, the judged calls again). Non-trivial = at least two calls, or any fault fired (non-reference hash base, permuted enumeration, context switch, real or injected panic, failed call, env change, debug session, log level, clock, heap layout). Distinct = distinct FNV-64 of (calls incl. program texts and options, sentinel, hash base, env, schedule actually taken).",
+            "rule": "one evaluation = one simulated execution (a Plan run in a pristine forked process). Plans are a pure function of (VERIF_SEED, stratum, index): stratum A = one operation under 1+K hash bases / file enumeration orders; B = sequential call histories over 1-3 caller threads with faults and a sentinel phase; C = 2-4 concurrent callers (real OS threads under the simulator's baton scheduler; a quarter of them twins compiling the same program) with faults and a sentinel phase; one B execution in forty is a long history (the judged calls, 120-520 unjudged filler calls, the judged calls again). Non-trivial = at least two calls, or any fault fired (non-reference hash base, permuted enumeration, context switch, real or injected panic, failed call, env change, debug session, log level, clock, heap layout, fresh address space). Distinct = distinct FNV-64 of (calls incl. program texts and options, sentinel, hash base, env, schedule actually taken).",
             "samples": agg.samples,
             "executions_per_stratum": agg.per_stratum,
             "stratum_C_executions_not_interleaved": agg.degraded,
@@ -843,8 +847,8 @@ fn cmd_run(args: &[String]) -> i32 {
             "determinism_reruns_same_outputs_other_event_order": agg.digest_mismatches,
             "violation_clusters": clusters.iter().map(|(s, m)| serde_json::json!({"signature": s, "executions": m.len()})).collect::<Vec<_>>(),
             "known_findings_hit": known_hits,
-            "components_real": ["prqlc", "prqlc-parser", "chumsky", "sqlparser", "sqlformat", "ariadne", "regex", "serde_json", "csv", "chrono", "std RwLock/OnceLock (uncontended, under shadow locks)", "prqlc::debug::MessageLogger (during debug sessions)"],
-            "components_stubbed": ["getrandom (PRNG; decides std RandomState keys)", "clock_gettime (simulated clock)", "global allocator (system allocator plus a scheduling hook and heap-layout perturbation)", "log global logger (harness logger wired like the CLI's: preemption points, injected panics, forwards to the real MessageLogger during debug sessions); log max level set per context", "thread scheduling (real OS threads parked and released one at a time by the simulator's seeded scheduler; optional shuttle 0.9.3 coroutine engine)", "__tsan_atomic* / __sanitizer_cov_trace_pc_guard callbacks of the instrumented library crates (scheduling point, then the real atomic operation)", "colour environment variables removed, stderr not a terminal"],
+            "components_real": ["prqlc", "prqlc-parser", "chumsky", "sqlparser", "sqlformat", "ariadne", "regex", "serde_json", "csv", "chrono", "std RwLock/OnceLock (uncontended, under shadow locks)", "prqlc::debug::MessageLogger (during debug sessions)", "prqlc-c (the C binding's extern \"C\" entry points and result_destroy, source included by build.rs)"],
+            "components_stubbed": ["getrandom (PRNG; decides std RandomState keys)", "clock_gettime (simulated clock)", "global allocator (system allocator plus a scheduling hook and heap-layout perturbation)", "log global logger (harness logger wired like the CLI's: preemption points, injected panics, forwards to the real MessageLogger during debug sessions); log max level set per context", "thread scheduling (real OS threads parked and released one at a time by the simulator's seeded scheduler; optional shuttle 0.9.3 coroutine engine)", "__tsan_atomic* / __sanitizer_cov_trace_pc_guard callbacks of the instrumented library crates (scheduling point, then the real atomic operation)", "colour environment variables removed, stderr not a terminal", "address-space layout: not stubbed and not seeded - a fresh execve per `address_space` execution lets the kernel draw it"],
         },
         "assumptions": [
             "reference context = same build, pristine process, one thread, hash base 0, identity file order, no fault; a deterministic-but-wrong output is invisible here",
@@ -1048,6 +1052,13 @@ fn main() {
             }
             _ => 2,
         },
+        // the exec'd half of an execution in a fresh address space (forkrun::exec_fresh)
+        Some("child") => {
+            seams::install();
+            let rfd: i32 = args.get(2).and_then(|s| s.parse().ok()).unwrap_or(-1);
+            let wfd: i32 = args.get(3).and_then(|s| s.parse().ok()).unwrap_or(-1);
+            forkrun::child_main(rfd, wfd)
+        }
         Some("selfcheck") => cmd_selfcheck(&args),
         Some("probe") => cmd_probe(&args),
         // development aid: print the plans of a stratum as JSON lines (no execution)
